@@ -127,7 +127,7 @@ def eval_cases(rng, count, extra):
 
 
 def strip(o):
-    return {k: v for k, v in o.items() if k != 'def_ids'}
+    return S.pub(o)
 
 
 def run(tier, seed, replay_case=None):
